@@ -31,6 +31,23 @@ theorem request_book (s : DState) (u : Path) : (s.request u).2.book = s.book := 
   unfold DState.request; split <;> rfl
 theorem request_fs (s : DState) (u : Path) : (s.request u).2.fs = s.fs := by
   unfold DState.request; split <;> rfl
+theorem dropRetries_ne_retry (l : List Resp) : ∀ r rs, (dropRetries l).2 = r :: rs → r ≠ .retry := by
+  induction l with
+  | nil => intro r rs h; simp [dropRetries] at h
+  | cons a l ih =>
+    intro r rs h
+    cases a with
+    | retry => simp only [dropRetries] at h; exact ih r rs h
+    | missing => simp [dropRetries] at h; rw [← h.1]; simp
+    | error => simp [dropRetries] at h; rw [← h.1]; simp
+    | ok a1 a2 a3 a4 a5 => simp [dropRetries] at h; rw [← h.1]; simp
+theorem request_ne_retry (s : DState) (u : Path) : (s.request u).1 ≠ .retry := by
+  unfold DState.request
+  split
+  · simp
+  · rename_i k r rs h
+    have : (dropRetries (s.orc u)).2 = r :: rs := by rw [h]
+    exact dropRetries_ne_retry _ r rs this
 
 theorem request_exh (s : DState) (u : Path) (r : Resp) (s1 : DState) (h : s.request u = (r, s1)) :
     ExhaustedOK s s1 := by
@@ -80,7 +97,7 @@ theorem LoopSpec.step {root v s s1 r} (h0 : ExhaustedOK s s1) (h : LoopSpec root
 
 def AttemptSpec (root : Path) (v : Variant) (s : DState) : Attempt → Prop
   | .accept s' => AcceptedOK root v s s'
-  | .again _ s' _ => ExhaustedOK s s'
+  | .again s' _ => ExhaustedOK s s'
   | .stop s' => ExhaustedOK s s'
 
 theorem utimeOpt_sizeAt (fs : FS) (p q : Path) (d : Option Int) : (utimeOpt fs p d).sizeAt q = fs.sizeAt q := by
@@ -147,19 +164,98 @@ theorem attempt_spec (root : Path) (f : DFile) (v : Variant) (src : Path) (s : D
 
 theorem tryLoop_spec (root : Path) (f : DFile) (v : Variant) (src : Path) (n : Nat) (s : DState) (err : Bool) :
     LoopSpec root v s (tryLoop root f v src n s err) := by
-  fun_induction tryLoop root f v src n s err
-  · exact ExhaustedOK.refl _
-  · rename_i s0 e0 s' hatt
-    have hs := attempt_spec root f v src s0 e0
-    rw [hatt] at hs; exact hs
-  · rename_i s0 e0 s' hatt
-    have hs := attempt_spec root f v src s0 e0
-    rw [hatt] at hs; exact hs
-  · rename_i s0 e0 s' e' hatt ih
-    have hs := attempt_spec root f v src s0 e0
-    rw [hatt] at hs; exact LoopSpec.step hs ih
-  · rename_i s0 e0 s' e' hatt ih
-    have hs := attempt_spec root f v src s0 e0
-    rw [hatt] at hs; exact LoopSpec.step hs ih
+  induction n generalizing s err with
+  | zero => exact ExhaustedOK.refl _
+  | succ n ih =>
+    unfold tryLoop
+    have hs := attempt_spec root f v src s err
+    split
+    · rename_i heq; rw [heq] at hs; exact hs
+    · rename_i heq; rw [heq] at hs; exact hs
+    · rename_i s' e' heq; rw [heq] at hs; exact LoopSpec.step hs (ih s' e')
+
+end AptMirror
+
+namespace AptMirror
+
+/-! ### lifting to aliases, variants, the whole file -/
+
+def FileSpec (root : Path) (vs : List Variant) (s : DState) (r : TryResult × DState × Bool) : Prop :=
+  match r with
+  | (.accepted, s', _) => ∃ v ∈ vs, AcceptedOK root v s s'
+  | (.exhausted, s', _) => ExhaustedOK s s'
+
+theorem tryAliases_spec (root : Path) (f : DFile) (v : Variant) (srcs : List Path) (s : DState) (err : Bool) :
+    LoopSpec root v s (tryAliases root f v srcs s err) := by
+  induction srcs generalizing s err with
+  | nil => exact ExhaustedOK.refl _
+  | cons src rest ih =>
+    unfold tryAliases
+    have h := tryLoop_spec root f v src 10 s err
+    split
+    · rename_i heq; rw [heq] at h; exact h
+    · rename_i s1 e1 heq; rw [heq] at h
+      exact LoopSpec.step h (ih s1 e1)
+
+theorem tryVariants_spec (root : Path) (f : DFile) (vs : List Variant) (s : DState) (err : Bool) :
+    FileSpec root vs s (tryVariants root f vs s err) := by
+  induction vs generalizing s err with
+  | nil => exact ExhaustedOK.refl _
+  | cons v rest ih =>
+    unfold tryVariants
+    have h := tryAliases_spec root f v v.allPaths s err
+    split
+    · rename_i heq; rw [heq] at h; exact ⟨v, List.mem_cons_self, h⟩
+    · rename_i s1 e1 heq; rw [heq] at h
+      have h2 := ih s1 e1
+      unfold FileSpec at *
+      split
+      · rename_i heq2; rw [heq2] at h2
+        obtain ⟨w, hw, hacc⟩ := h2
+        exact ⟨w, List.mem_cons_of_mem _ hw, AcceptedOK.of_exhausted h hacc⟩
+      · rename_i heq2; rw [heq2] at h2; exact h.trans h2
+
+theorem mem_listUnion_right {a b : List Path} {p : Path} (h : p ∈ b) : p ∈ listUnion a b := by
+  unfold listUnion
+  by_cases ha : p ∈ a
+  · exact List.mem_append_left _ ha
+  · apply List.mem_append_right
+    rw [List.mem_eraseDups]
+    exact List.mem_filter.mpr ⟨h, by simpa using ha⟩
+
+theorem mem_listUnion_left {a b : List Path} {p : Path} (h : p ∈ a) : p ∈ listUnion a b :=
+  List.mem_append_left _ h
+
+/-- the three ways `download_file` can end -/
+inductive FileOutcome (root : Path) (f : DFile) (s s' : DState) : Prop
+  | accepted (v : Variant) (hv : v ∈ f.iterVariants) (h : AcceptedOK root v s s')
+  | ignored (h : ExhaustedOK s s') (hig : f.ignoreErrors = true ∨ f.ignoreMissing = true)
+  | failed (hd : s'.book.downloaded = s.book.downloaded) (hu : s'.book.unmodified = s.book.unmodified)
+      (hm : ∀ p ∈ f.allPaths, p ∈ s'.book.missing)
+      (hc : s'.book.missCount + s'.book.errCount = s.book.missCount + s.book.errCount + 1)
+
+theorem downloadFile_outcome (root : Path) (f : DFile) (s : DState) :
+    FileOutcome root f s (downloadFile root f s) := by
+  unfold downloadFile
+  have h := tryVariants_spec root f f.iterVariants s false
+  split
+  · rename_i s1 _ heq; rw [heq] at h
+    obtain ⟨v, hv, hacc⟩ := h
+    exact .accepted v hv hacc
+  · rename_i s1 err heq; rw [heq] at h
+    have h : ExhaustedOK s s1 := h
+    split
+    · rename_i hig; exact .ignored h (Or.inl hig)
+    · split
+      · rename_i hig; exact .ignored h (Or.inr hig.1)
+      · split
+        · refine .failed h.downloaded h.unmodified ?_ ?_
+          · intro p hp; exact mem_listUnion_right hp
+          · show s1.book.missCount + 1 + s1.book.errCount = _
+            rw [h.noErr.1, h.noErr.2]; omega
+        · refine .failed h.downloaded h.unmodified ?_ ?_
+          · intro p hp; exact mem_listUnion_right hp
+          · show s1.book.missCount + (s1.book.errCount + 1) = _
+            rw [h.noErr.1, h.noErr.2]; omega
 
 end AptMirror
